@@ -154,7 +154,8 @@ def compare(impl, ans):
     observable (the call ended with an exception): compare the observable rest"""
     a, b = impl.split(" ")[1:], ans.split(" ")[1:]
     if len(a) == 4 and len(b) == 4 and a[2] == "1" and b[2] == "1":
-        return a[:3] == b[:3]
+        # the call ended with an exception: neither the best solution kept so far nor the statistics are returned to anybody
+        return a[0] == b[0]
     return a == b
 
 
